@@ -77,6 +77,7 @@ THEOREMS = ["OllamaVerif.C18." + t for t in (
     # the admissibility clauses hold for ANY correct top-k stage (pdqsort's order among equal logits is immaterial)
     "SampleWith_topK", "sampleWith_admissible", "sampleWith_admissible_fixed_on",
     "newParams_in_range", "xClampLawsOn", "arith_contracts_of_ranges", "cumsum_nonneg", "xMulLawsOn",
+    "scale_contract_of_laws", "guard_of_laws", "contracts_after_shift", "isDesc_head_max", "xScaleLawsOn", "xBeqRefl",
     "deterministic", "hist_nth", "Sample_indep_r", "stream_of_seed", "grammar_step_spec",
     "grammar_retry_admissible_partial", "grammar_retry_admissible_fixed_partial", "grammar_retry_greedy",
     "masked_not_neginf_accepted", "maskLogits_get", "F18_nan_instead_of_token", "F18_guard_fails",
